@@ -94,8 +94,22 @@ def module_roundtrip(ctx, oq, q, wd):
     torch.save(sd, buf)
     buf.seek(0)
     sd2 = torch.load(buf, weights_only=True)
-    m2 = oq.QLinear(in_f, out_f, bias=False, dtype=wd, weights=q.qtype)
-    m2.load_state_dict(sd2)
+    # the target is what a user may have at hand: another float dtype, another 8-bit qtype, already frozen or not; the
+    # state_dict decides what the module holds afterwards
+    rng = ctx.crng
+    wd2 = DT[int(rng.integers(3))] if rng.random() < 0.4 else wd
+    tq = q.qtype
+    if q.qtype.bits == 8 and rng.random() < 0.4:
+        tq = oq.qtypes[["qint8", "qfloat8_e4m3fn", "qfloat8_e5m2"][int(rng.integers(3))]]
+    m2 = oq.QLinear(in_f, out_f, bias=False, dtype=wd2, weights=tq)
+    if hasattr(q, "_group_size"):
+        m2.weight_group_size = q._group_size
+    target = "unfrozen"
+    if rng.random() < 0.5:
+        m2.freeze()
+        target = "frozen"
+    ctx.see("roundtrip_targets", f"{target}:{'same' if wd2 == wd else 'other'}_dtype:{'same' if tq == q.qtype else 'other'}_qtype")
+    m2.load_state_dict(sd2, assign=bool(rng.random() < 0.25))
     ctx.count("roundtrip_checks")
     w2 = fp.unwrap_param(m2.weight)
     if not dispatchmon.is_q(w2):
